@@ -68,7 +68,8 @@ CtorTrees ==
   \cup {Idx(o, ix, <<B>>) : o \in {"BIGPR", "SMALLPR"}, ix \in {<<1>>, <<2, 1>>, <<1, 2, 3>>, <<10, 11>>}}
   \cup {Node("TUPLE", <<B, X(3)>>), Node("TUPLE", <<X(3), B, B>>), Node("ENUM", <<B>>), Node("ENUM", <<X(3), B>>),
         Node("TUPLE", <<Node("TUPLE", <<X(1), X(2)>>), X(3)>>), Node("ENUM", <<Node("ENUM", <<X(1)>>), Empty>>)}
-  \cup {Call("F1", <<B>>), Call("F1", <<X(1), B>>), Call("F2", <<Call("F1", <<B>>), IntLit(12)>>)}
+  \cup {Call("F1", <<B>>), Call("F1", <<X(1), B>>), Call("F2", <<Call("F1", <<B>>), IntLit(12)>>), Call("F2", <<X(1)>>),
+        Node("EQUAL", <<Call("F2", <<X(1)>>), Call("F2", <<X(1)>>)>>)}
   \cup {Idx("FILTER", <<1>>, <<B, B>>), Idx("FILTER", <<1, 2>>, <<X(1), B, X(3)>>), Idx("FILTER", <<2, 1>>, <<B, X(3)>>)}
   \cup {Node("DECLARATIVE", <<La, B, F>>), Node("DECLARATIVE", <<Node("TUPLEDECL", <<La, Lb>>), B, P(1)>>),
         Node("DECLARATIVE", <<La, X(1), Neg(F)>>), Node("DECLARATIVE", <<La, X(1), Q(F)>>)}
